@@ -30,8 +30,8 @@ def gen_cases(tier, seed):
         for cap in (1, 2, 3):
             for rx in (False, True):
                 for rexc in (False, True):
-                    for plan in ('none', 'fail', 'reject-first', 'reject-last', 'reject-mid', 'reject-all', 'reject+fail'):
-                        if n == 1 and plan in ('reject-mid', 'reject+fail'):
+                    for plan in ('none', 'fail', 'reject-first', 'reject-last', 'reject-mid', 'reject-all', 'reject+fail', 'submit-fail', 'submit-fail+pre', 'reject+submit-fail'):
+                        if n == 1 and plan in ('reject-mid', 'reject+fail', 'reject+submit-fail'):
                             continue
                         if tier == 'quick' and n == 4 and cap == 3 and plan in ('none', 'fail'):
                             continue
@@ -56,6 +56,13 @@ def gen_cases(tier, seed):
     for i in range(10 if tier == 'quick' else 150):
         cases.append({'kind': 'servers', 'n': 12, 'capacity': rng.choice([2, 2, 3]), 'return_x': False, 'return_exceptions': True,
                       'reject_every': 0, 'fail_every': 0, 'threads': 3, 'waiters': True, 'seed': rng.randrange(1 << 30)})
+    # the submission of a stream element fails (no room within the stream's timeout), with and without a preprocessor
+    for pre in (False, True):
+        for rx in (False, True):
+            for rexc in (False, True):
+                if tier == 'quick' and rx and not pre:
+                    continue
+                cases.append({'kind': 'servers', 'backlog_stream': True, 'preproc': pre, 'return_x': rx, 'return_exceptions': rexc, 'seed': rng.randrange(1 << 30)})
     return cases
 
 
@@ -78,12 +85,24 @@ def _plan(plan, items):
     return fail, reject
 
 
-def _one_pair(S, items, cap, rx, rexc, fail, reject, preproc, pr, errval=()):
+def _plan_subfail(plan, items):
+    """(elements whose submission raises, force a preprocessor)"""
+    n = len(items)
+    if plan == 'submit-fail':
+        return {items[n // 2]}, False
+    if plan == 'submit-fail+pre':
+        return {items[-1] if n > 1 else items[0]}, True
+    if plan == 'reject+submit-fail':
+        return {items[-1]}, True
+    return set(), False
+
+
+def _one_pair(S, items, cap, rx, rexc, fail, reject, preproc, pr, errval=(), subfail=()):
     """Run sync and async with the same ranking; return (sync_result, async_result, ooo flag)."""
     ctl = gates.Controller(priorities=pr, settle=0.001, max_settle=0.02).start()
     led = gates.Ledger()
     try:
-        so = watch.run_bounded(lambda: H.run_fifo_direct(S, items, capacity=cap, return_x=rx, return_exceptions=rexc, fail=fail, errval=errval,
+        so = watch.run_bounded(lambda: H.run_fifo_direct(S, items, capacity=cap, return_x=rx, return_exceptions=rexc, fail=fail, errval=errval, subfail=subfail,
                                                           reject=reject, preproc=preproc, controller=ctl, ledger=led), 20, 'fifo_stream')
     finally:
         ctl.stop()
@@ -93,7 +112,7 @@ def _one_pair(S, items, cap, rx, rexc, fail, reject, preproc, pr, errval=()):
         actl = gates.AsyncController(priorities=pr).start()
         aled = gates.Ledger()
         try:
-            r = await asyncio.wait_for(H.run_async_fifo_direct(S, items, capacity=cap, return_x=rx, return_exceptions=rexc, fail=fail, errval=errval,
+            r = await asyncio.wait_for(H.run_async_fifo_direct(S, items, capacity=cap, return_x=rx, return_exceptions=rexc, fail=fail, errval=errval, subfail=subfail,
                                                                reject=reject, preproc=preproc, controller=actl, ledger=aled), 20)
         finally:
             await actl.stop()
@@ -120,8 +139,10 @@ def run_case(case):
         n = case['n']
         items = list(range(500, 500 + n))
         errval = ()
+        subfail, force_pre = set(), False
         if kind == 'fifo-all-rankings':
-            fail, reject = _plan(case['plan'], items)
+            fail, reject = _plan('reject-first' if case['plan'] == 'reject+submit-fail' else case['plan'], items)
+            subfail, force_pre = _plan_subfail(case['plan'], items)
             rankings = list(itertools.permutations(range(n)))
         else:
             rng = random.Random(case['seed'])
@@ -129,12 +150,14 @@ def run_case(case):
             fail = {x for x in items if rng.random() < case['fail_rate']} - reject
             # results that *are* exception objects (returned, not raised) are ordinary results in both variants
             errval = {x for x in items if case['seed'] % 3 == 0 and rng.random() < 0.2} - reject - fail
+            # the submission of an element raises (with and without a preprocessor in front of it)
+            subfail = ({x for x in items if rng.random() < 0.08} - reject) if case['seed'] % 4 == 1 else set()
             rankings = [gates.make_priorities(case['policy'], n, rng)]
-        preproc = bool(reject) or (kind == 'fifo-seeded' and case['reject_every'] > 0)
-        exp = H.expected_outputs(items, fail, reject, case['return_x'], case['return_exceptions'], preproc, errval)
+        preproc = bool(reject) or force_pre or (kind == 'fifo-seeded' and case['reject_every'] > 0)
+        exp = H.expected_outputs(items, fail, reject, case['return_x'], case['return_exceptions'], preproc, errval, subfail)
         for pr in rankings:
             try:
-                s, a, so, ao = _one_pair(S, items, case['capacity'], case['return_x'], case['return_exceptions'], fail, reject, preproc, list(pr), errval)
+                s, a, so, ao = _one_pair(S, items, case['capacity'], case['return_x'], case['return_exceptions'], fail, reject, preproc, list(pr), errval, subfail)
             except watch.Hang as h:
                 viol.append({'mech': 'sync/hang', 'msg': 'fifo_stream did not finish', 'stacks': h.stacks})
                 return {'violations': viol, 'obs': obs, 'exit_after': True}
